@@ -4,7 +4,7 @@ from ..fn import World
 from ..index import AnalysisError, dotted
 from ..astutil import text, short, endswith, calls_in, walk_no_nested
 from .. import events as E
-from ._h_E import Flow, arg, argn, nargs, return_cases, leaf_polarity
+from ._h_E import Flow, arg, argn, nargs, return_cases, leaf_polarity, own_helper
 
 EXPLANATION = (
   "Decides only the structural legs of the reopen fixed point: (R1) loading writes cells through "
@@ -35,20 +35,46 @@ def r1_loader(run, w):
   cfg = lt.cfg
   flow = Flow(lt)
   p = lt.fi.params()[1]
-  clears = [(n, c) for (n, c, nm) in lt.calls() if isinstance(c.func, ast.Attribute) and
-            c.func.attr == "clear" and lt.world.typer.is_column(lt.type_of(c.func.value))]
-  if not clears:
-    raise AnalysisError("load_table: no column.clear() call found (clearing moved?)")
-  # the cleared column is the variable of a loop over every column of the table, and nothing
-  # decides per column whether to clear it
+  def column_clears(f):
+    return [(n, c) for (n, c, nm) in f.calls() if isinstance(c.func, ast.Attribute) and
+            c.func.attr == "clear" and
+            (f.world.typer.is_column(f.type_of(c.func.value)) or f.type_of(c.func.value) is None)]
+  def clears_every_column(f, fl, n, c):
+    """the cleared object is the variable of a loop over every column of a table, and nothing
+    decides per column whether to clear it"""
+    src = fl.loop_source(c.func.value, n.id)
+    if src is None or fl.required_facts(n.id):
+      return None
+    it = fl.resolve(src[0], src[1])[0]
+    return src[1] if text(it).endswith("all_columns.values()") else None
+  clears = [(n, c) for (n, c) in column_clears(lt)
+            if lt.world.typer.is_column(lt.type_of(c.func.value))]
+  clear_nodes = set()     # nodes of load_table after which every column is empty
   loop_nodes = set()
   ok = len(clears) == 1
   for (n, c) in clears:
-    src = flow.loop_source(c.func.value, n.id)
-    ok = ok and src is not None and text(src[0]).endswith("all_columns.values()") and \
-        not flow.required_facts(n.id)
-    if src is not None:
-      loop_nodes.add(src[1])
+    ln = clears_every_column(lt, flow, n, c)
+    ok = ok and ln is not None
+    if ln is not None:
+      loop_nodes.add(ln)
+    clear_nodes.add(n.id)
+  if not clears:
+    # the clearing loop may have been extracted into a helper of the engine
+    for (n, c, nm) in lt.calls():
+      hlp = own_helper(w, lt, c)
+      if hlp is None:
+        continue
+      hfn = w.fn_of(hlp)
+      hflow = Flow(hfn)
+      hc = [(hn, hcall) for (hn, hcall) in column_clears(hfn)
+            if clears_every_column(hfn, hflow, hn, hcall) is not None]
+      if len(hc) == 1 and not flow.required_facts(n.id) and \
+          hfn.cfg.dominated_by(hfn.cfg.exit.id, {clears_every_column(hfn, hflow, *hc[0])}):
+        ok = True
+        loop_nodes.add(n.id)
+        clear_nodes.add(n.id)
+    if not clear_nodes:
+      raise AnalysisError("load_table: no column.clear() call found (clearing moved?)")
   run.ob(R1, lt.qualname, "for column in table.all_columns.values(): column.clear()",
          "every column is emptied before loading, whether or not the data mentions it", ok,
          fi=lt.fi)
@@ -60,7 +86,7 @@ def r1_loader(run, w):
     ok = a0 is not None and a1 is not None and \
         flow.itext(a0, an.id, stop=(p,)) == p + ".table_id" and \
         flow.itext(a1, an.id, stop=(p,)) == p + ".row_ids" and \
-        not (cfg.reach_after({an.id}) & {n.id for (n, c) in clears}) and \
+        not (cfg.reach_after({an.id}) & clear_nodes) and \
         bool(loop_nodes) and cfg.dominated_by(an.id, loop_nodes) and \
         not flow.required_facts(an.id)
   run.ob(R1, lt.qualname, "self.add_records(data.table_id, data.row_ids, columns)",
@@ -173,7 +199,7 @@ def _is_pair_test(e, pair, whole):
 def _emitted_rows_filtered(w, ca):
   """The rows every emitted action is built from come from one pass over the column delta that
   keeps a row only when `not equal_encoding(before, after)` (comprehension or loop spelling)."""
-  from ..guards import facts
+  from ._h_E import nfacts as facts
   flow = Flow(ca)
   cfg = ca.cfg
   delta = ca.fi.params()[3]
